@@ -258,6 +258,7 @@ class Replayer:
                     got_pl = df.schema[c.name]
                     if want_pl != got_pl and not (str(got_pl) == "Null" and all(v is None for v in df[c.name].to_list())):
                         self.fail(node, beh, k, bk, "dtype-export", f"column {c.name}: static type {d0} ({want_pl}), exported {got_pl}")
+            collected_from_sql_tbl = bk != "polars" and tbl._cache.backend.backend_name == "polars"
             for n, e_ in zip(names, ex):
                 w = wantmap.get(n)
                 s_ = stmap.get(n)
@@ -271,6 +272,15 @@ class Replayer:
                     bk != "polars" and {e_, w} <= {"int", "float"})     # "up to the numeric family" on SQL
                 if not okfam:
                     self.fail(node, beh, k, bk, "dtype-export", f"column {n}: exported {e_}, specification {w}")
+            # the same through an earlier reference: tbl[ref] is the column as THIS table sees it
+            for cid, ref in list(side.colmap.items()):
+                u = getattr(ref, "_uuid", None)
+                if u is not None and u in tbl._cache.uuid_to_name:
+                    cur = tbl[ref]
+                    w = wantmap.get(cur.name)
+                    s_ = CMP.pdt_family(cur.dtype())
+                    if w is not None and s_ != w and s_ != "null" and not (collected_from_sql_tbl and {s_, w} <= {"int", "float"}):
+                        self.fail(node, beh, k, bk, "dtype-static", f"column {cur.name} through an earlier reference (tbl[ref]): static type family {s_}, specification {w}")
         except Exception as e:  # noqa: BLE001
             self.fail(node, beh, k, bk, "dtype-static", f"dtype accessor raised {exc_class(e)}: {e}")
         if self.opts.get("roundtrip"):
